@@ -426,6 +426,7 @@ package ech
 //@   check[F:padding-zero] inner != nil ==> forall(j, offset(msg) + chExStart(msg) + chExLen(msg), offset(msg) + len(msg), mem(msg, j) == 0)
 //@   ensures[F:seq-first] inner != nil && !isRetry ==> hseq(c.hpkeCtx) == 1
 //@   ensures[F:seq-retry] isRetry ==> c.hpkeCtx == old(c.hpkeCtx) && (inner != nil ==> hseq(c.hpkeCtx) == 2) && 1 <= hseq(c.hpkeCtx) && hseq(c.hpkeCtx) <= 2
+//@   at "if string(cfg.PublicName) != h.ServerName" assert[F:keyindep-second-hello] isRetry ==> hid(ctx) == kSetup(key.Config, key.PrivateKey, int(c.outer.echExt.CipherSuite.KDF), int(c.outer.echExt.CipherSuite.AEAD), cid(c.outer.echExt.Enc))
 //@   at "eoeSeen = true" lemma[L:marker-here] firstFrom(rx2, 0xfd00, 0) == ri2 && len(newExt) == ri2 && ext == rx2[ri2]
 //@   at "for p < len(h.Extensions) &&" lemma[L:type-read] int(extType) == be16(ext.Data, 1 + 2*(len(newExt) - entry(len(newExt))))
 //@   at "if p == len(h.Extensions)" lemma[L:scan-result] p == firstFrom(h.Extensions, int(extType), ite(len(newExt) - entry(len(newExt)) <= 0, 0, splicePos(h.Extensions, ext.Data, len(newExt) - entry(len(newExt)) - 1) + 1))
